@@ -12,7 +12,7 @@ MAX_PROBES_PER_TASK = 6
 def run_symx_check(mod, tier, seed, only=None, procs=None, extra_cov=None, pre_verdicts=None):
     t0 = time.time()
     cid = mod.ID
-    rdir = os.path.join(runner.VERIF, "replays", cid)
+    rdir = os.path.join(os.environ.get("VERIF_REPLAY_DIR", os.path.join(runner.VERIF, "replays")), cid)
     if os.path.isdir(rdir) and not only:
         for f in os.listdir(rdir):
             if f.startswith(tier + "_"):
